@@ -113,6 +113,14 @@ func (t *guardTr) cond(e ast.Expr) string {
 			return fmt.Sprintf(".or (%s) (%s)", t.cond(e.X), t.cond(e.Y))
 		case token.GEQ, token.LEQ, token.GTR, token.LSS, token.EQL, token.NEQ:
 			x, y, op := e.X, e.Y, e.Op
+			// x == nil / x != nil: one atom "<x>!=nil", negated for ==
+			if id, ok := y.(*ast.Ident); ok && id.Name == "nil" && (op == token.EQL || op == token.NEQ) {
+				a := ".v " + leanStr(t.normExpr(x)+"!=nil")
+				if op == token.EQL {
+					return fmt.Sprintf(".not (%s)", a)
+				}
+				return a
+			}
 			if _, ok := t.ct.eval(x, 0); ok {
 				x, y = y, x
 				op = map[token.Token]token.Token{token.GEQ: token.LEQ, token.LEQ: token.GEQ, token.GTR: token.LSS, token.LSS: token.GTR, token.EQL: token.EQL, token.NEQ: token.NEQ}[op]
@@ -125,9 +133,57 @@ func (t *guardTr) cond(e ast.Expr) string {
 			}
 		}
 	}
-	// an opaque boolean condition (err != nil, CloseStatus(err) != -1, …): an atom named by its source,
-	// with receiver chains normalised like every other atom
+	// an opaque boolean condition (CloseStatus(err) != -1, len(p) >= threshold, …): an atom named by its source, with
+	// receiver chains normalised like every other atom and comparisons in one canonical direction (== is the negation
+	// of !=, >= of <, > is < with the operands swapped, <= its negation)
+	if b, ok := e.(*ast.BinaryExpr); ok {
+		x, y := t.normExpr(b.X), t.normExpr(b.Y)
+		switch b.Op {
+		case token.NEQ:
+			return ".v " + leanStr(x+"!="+y)
+		case token.EQL:
+			return fmt.Sprintf(".not (.v %s)", leanStr(x+"!="+y))
+		case token.LSS:
+			return ".v " + leanStr(x+"<"+y)
+		case token.GEQ:
+			return fmt.Sprintf(".not (.v %s)", leanStr(x+"<"+y))
+		case token.GTR:
+			return ".v " + leanStr(y+"<"+x)
+		case token.LEQ:
+			return fmt.Sprintf(".not (.v %s)", leanStr(y+"<"+x))
+		}
+	}
 	return ".v " + leanStr(t.normExpr(e))
+}
+
+// isBoolExpr: syntactically boolean (used to recognise local boolean variables).
+func isBoolExpr(e ast.Expr) bool {
+	switch x := e.(type) {
+	case *ast.ParenExpr:
+		return isBoolExpr(x.X)
+	case *ast.UnaryExpr:
+		return x.Op == token.NOT
+	case *ast.BinaryExpr:
+		switch x.Op {
+		case token.LAND, token.LOR, token.EQL, token.NEQ, token.LSS, token.LEQ, token.GTR, token.GEQ:
+			return true
+		}
+	case *ast.Ident:
+		return x.Name == "true" || x.Name == "false"
+	}
+	return false
+}
+
+// isErrCtor: errors.New(...) / fmt.Errorf(...): a non-nil error.
+func isErrCtor(e ast.Expr) bool {
+	if c, ok := e.(*ast.CallExpr); ok {
+		if s, ok := c.Fun.(*ast.SelectorExpr); ok {
+			if id, ok := s.X.(*ast.Ident); ok {
+				return (id.Name == "errors" && s.Sel.Name == "New") || (id.Name == "fmt" && s.Sel.Name == "Errorf")
+			}
+		}
+	}
+	return false
 }
 
 func (t *guardTr) normExpr(e ast.Expr) string {
@@ -189,6 +245,10 @@ func (t *guardTr) stmt(s ast.Stmt) []string {
 		}
 		if id, ok := last.(*ast.Ident); ok && id.Name == "nil" {
 			return append(pre, ".ret \"ok\"")
+		}
+		if id, ok := last.(*ast.Ident); ok {
+			// `return …, err`: an error exactly when the variable is non-nil
+			return append(pre, fmt.Sprintf(".ifElse (.v %s) [.ret \"err\"] [.ret \"ok\"]", leanStr(id.Name+"!=nil")))
 		}
 		if _, ok := last.(*ast.CallExpr); ok && len(pre) > 0 {
 			// `return c.f(...)`: the callee decides
@@ -280,6 +340,16 @@ func (t *guardTr) stmt(s ast.Stmt) []string {
 			}
 			return append(out, ".opaque \"next iteration\"")
 		}
+		if s.Init == nil && s.Cond != nil && s.Post == nil {
+			// `for cond { body }`: one unrolling — if the condition holds the body runs and falling off its end is the
+			// next iteration; otherwise evaluation goes on behind the loop
+			var out []string
+			for _, x := range s.Body.List {
+				out = append(out, t.stmt(x)...)
+			}
+			out = append(out, ".opaque \"next iteration\"")
+			return []string{fmt.Sprintf(".ifThen (%s) [%s]", t.cond(s.Cond), strings.Join(out, ", "))}
+		}
 		return []string{".opaque \"loop\""}
 	case *ast.RangeStmt:
 		return []string{".opaque \"loop\""}
@@ -308,6 +378,20 @@ func (t *guardTr) stmt(s ast.Stmt) []string {
 				}
 				if a, ok := t.atom(sel); ok && guardBoolVars[a] && len(s.Lhs) == len(s.Rhs) && (s.Tok == token.ASSIGN) {
 					out = append(out, fmt.Sprintf(".assign %s (%s)", leanStr(a), t.cond(s.Rhs[i])))
+				}
+			}
+		}
+		if len(s.Lhs) == len(s.Rhs) {
+			for i, l := range s.Lhs {
+				id, ok := l.(*ast.Ident)
+				if !ok || id.Name == "_" {
+					continue
+				}
+				if isBoolExpr(s.Rhs[i]) {
+					// a local boolean variable
+					out = append(out, fmt.Sprintf(".assign %s (%s)", leanStr(id.Name), t.cond(s.Rhs[i])))
+				} else if isErrCtor(s.Rhs[i]) {
+					out = append(out, fmt.Sprintf(".assign %s (.tt)", leanStr(id.Name+"!=nil")))
 				}
 			}
 		}
